@@ -116,7 +116,17 @@ def mutations(dialect, text, rng, limit=12):
         kinds.append(('ins', i))
     for k in range(1, n):
         kinds.append(('trunc', k))
+    # near-valid shapes the property names: a sign applied to a non-number, a `key = value` pair removed
+    special = []
+    for i in range(n):
+        if spans[i][0] in ('QUOTE_STRING', 'DQUOTE_STRING', 'NULL', 'TRUE', 'FALSE', 'ID', 'LPAREN', 'PARAMETER',
+                           'VARIABLE', 'SYSTEM_VARIABLE'):
+            special.append(('sign', i))
+        if i + 2 < n and spans[i + 1][0] == 'EQUALS':
+            special.append(('delkv', i))
+    rng.shuffle(special)
     rng.shuffle(kinds)
+    kinds = special[:max(2, limit // 4)] + kinds
     for kind, i in kinds[:limit]:
         t = list(toks)
         if kind == 'del':
@@ -132,6 +142,15 @@ def mutations(dialect, text, rng, limit=12):
             t.insert(i, rng.choice(GARBAGE + toks))
         elif kind == 'trunc':
             t = t[:i]
+        elif kind == 'sign':
+            t.insert(i, rng.choice(['-', '+', 'NOT', '- -']))
+        elif kind == 'delkv':
+            j = i + 3
+            if j < n and spans[j][0] == 'COMMA':
+                j += 1
+            elif i > 0 and spans[i - 1][0] == 'COMMA':
+                i -= 1
+            del t[i:j]
         out.append((kind, rebuild(t)))
     g = rng.choice(GARBAGE)
     out.append(('prefix', g + ' ' + text))
